@@ -4,6 +4,8 @@ pub mod c10;
 pub mod c12;
 pub mod c14;
 pub mod c16;
+pub mod c17;
+pub mod c18;
 pub mod c19;
 
 pub fn by_id(id: &str) -> Option<Box<dyn Monitor>> {
@@ -11,6 +13,8 @@ pub fn by_id(id: &str) -> Option<Box<dyn Monitor>> {
         "C10" => Box::new(c10::C10::new()),
         "C12" => Box::new(c12::C12),
         "C14" => Box::new(c14::C14),
+        "C17" => Box::new(c17::C17),
+        "C18" => Box::new(c18::C18::new()),
         "C19" => Box::new(c19::C19),
         "C16" => Box::new(c16::C16),
         _ => return None,
